@@ -33,6 +33,75 @@ fn g_quiet(t: &mut Tape) -> Scenario {
     gen_scenario(t, &p)
 }
 
+fn g_quiet_change(t: &mut Tape) -> Scenario {
+    // quiet, lossless network whose path may change once; rounds long enough for every
+    // probe up to the target to be sent and answered
+    let mut p = Profile::base();
+    p.delivery_faults = false;
+    p.late = false;
+    p.stalls = false;
+    p.hop_kinds = false;
+    p.target_kinds = false;
+    p.unreachable_hops = false;
+    p.ecmp = false;
+    p.route_change = false;
+    p.max_path = 24;
+    p.max_rounds = 8;
+    let mut sc = gen_scenario(t, &p);
+    let v6 = sc.tracer.v6;
+    if t.chance(700) {
+        let old_len = sc.net.paths[0].routers.len() as u32;
+        let new_len = match t.pick(3) {
+            0 => old_len + 1 + t.draw(6),
+            1 => old_len.saturating_sub(1 + t.draw(4)),
+            _ => t.draw(24),
+        };
+        let routers = (1..=new_len)
+            .map(|h| {
+                let mut r = sc.net.paths[0].routers.first().cloned().unwrap_or(crate::scenario::RouterCfg {
+                    addr: crate::scenario::router_addr(v6, h, 0, 1),
+                    silent: false,
+                    rate_limit: 1,
+                    duplicate: false,
+                    extra_delay_ns: 0,
+                    quote: crate::scenario::Quote::Min8,
+                    layout: crate::wire::ErrorLayout::Plain,
+                    quoted_ttl: 1,
+                    tos_rewrite: None,
+                    nat: None,
+                    unreachable_code: None,
+                });
+                r.addr = crate::scenario::router_addr(v6, h, 0, 1);
+                r
+            })
+            .collect();
+        let at = 1 + t.draw(3);
+        sc.net.route_change = Some((at, vec![crate::scenario::PathCfg { routers }]));
+        sc.tracer.rounds = sc.tracer.rounds.max(at + 3);
+    }
+    let dmax = sc
+        .net
+        .route_change
+        .as_ref()
+        .map_or(0, |(_, p)| p[0].routers.len())
+        .max(sc.net.paths[0].routers.len()) as u64
+        + 1;
+    let ms = 1_000_000u64;
+    sc.tracer.read_timeout_ns = ms;
+    sc.tracer.first_ttl = 1 + t.draw(3) as u8;
+    sc.tracer.max_ttl = sc.tracer.max_ttl.max((dmax + 2).min(254) as u8);
+    let rtt = 2 * dmax * sc.net.hop_delay_ns;
+    let need = 4 * (dmax + 4) * (sc.tracer.read_timeout_ns + rtt);
+    sc.tracer.max_round_ns = sc.tracer.max_round_ns.max(need);
+    sc.tracer.min_round_ns = sc.tracer.min_round_ns.min(sc.tracer.max_round_ns);
+    sc.tracer.tcp_connect_timeout_ns = sc.tracer.tcp_connect_timeout_ns.max(2 * sc.tracer.max_round_ns);
+    sc.net.jitter_ns = 0;
+    sc.faults.tick_base_ns = sc.faults.tick_base_ns.clamp(50, 1000);
+    sc.stable = sc.net.route_change.is_none();
+    sc.epoch_liveness = true;
+    sc
+}
+
 fn g_sockfaults(t: &mut Tape) -> Scenario {
     let mut p = Profile::base();
     p.sock_faults = true;
@@ -201,6 +270,7 @@ fn sweep(t: &mut Tape, full: bool) -> Scenario {
         light: true,
         mutation: None,
         sniff: false,
+        epoch_liveness: false,
     }
 }
 
@@ -489,6 +559,7 @@ fn sweep_scenario(t: &mut Tape, wide: bool, tier: &str) -> Scenario {
         light: true,
         mutation: Some(Mutation { field, value, trunc }),
         sniff: true,
+        epoch_liveness: false,
     }
 }
 
@@ -714,6 +785,7 @@ pub fn registry() -> Vec<PropertyCheck> {
             families: vec![
                 Family { name: "swarm", gen: g_base, oracle: oracle::c10, opts: opts_full(), quick_runs: 120_000, thorough_runs: 5_000_000, must_reach: &[], enum_dims: None },
                 Family { name: "fault-free", gen: g_quiet, oracle: oracle::c10, opts: opts_full(), quick_runs: 40_000, thorough_runs: 1_500_000, must_reach: &[], enum_dims: None },
+                Family { name: "quiet-route-change", gen: g_quiet_change, oracle: oracle::c10, opts: opts_full(), quick_runs: 60_000, thorough_runs: 2_000_000, must_reach: &["fault.route_change"], enum_dims: None },
             ],
             assumptions: vec![ASSUME_SIM, ASSUME_CLOCK],
         },
